@@ -51,7 +51,7 @@ func H_C02_lists() {
 			v.Ss[i] = "s"
 		}
 	case 1:
-		v.Is = make([]int32, n)
+		v.Is = make([]int32, n, n+5) // spare capacity: the count on the wire is the length
 		for i := range v.Is {
 			v.Is[i] = int32(i)
 		}
@@ -203,6 +203,55 @@ func H_C02_type_names() {
 	l3 := b.list("[]string", 1)
 	l3.Items = append(l3.Items, avStr("s"))
 	exp := b.obj("ZTypedMix", []string{"attrs", "l1", "l2", "l3"}, attrs, l1, l2, l3)
+	exp.Ord = o
+	checkWellFormed(bs, exp)
+}
+
+type ZEdgeNames struct {
+	Alpha int32
+	Zulu  int32
+	Mid   int32
+	Azz   int32
+	Zaa   int32
+	B     int32
+}
+
+// H_C02_field_names_and_aliases: field names starting with the first and last letters of the alphabet are
+// lower-cased like any other; slices that are prefixes of one another are separate lists on the wire.
+func H_C02_field_names_and_aliases() {
+	x := vInt32("x")
+	if vChoice("what", 2) == 0 {
+		v := &ZEdgeNames{Alpha: x, Zulu: 2, Mid: 3, Azz: 4, Zaa: 5, B: 6}
+		_, nameMap := vExtract(v)
+		bs, err := ToBytes(v, nameMap)
+		vAssert("encode-noerr", err == nil)
+		exp := &AV{Kind: 'O', Type: "ZEdgeNames", Fields: []string{"alpha", "zulu", "mid", "azz", "zaa", "b"},
+			Items: []*AV{avInt(x), avInt(2), avInt(3), avInt(4), avInt(5), avInt(6)}, Ord: 0}
+		checkWellFormed(bs, exp)
+		return
+	}
+	arr := []int32{x, 2, 3}
+	v := &ZShare{Z: 1}
+	if vChoice("order", 2) == 0 {
+		v.A, v.B = arr[:2], arr[:1]
+	} else {
+		v.A, v.B = arr[:1], arr[:3]
+	}
+	_, nameMap := vExtract(v)
+	bs, err := ToBytes(v, nameMap)
+	vAssert("encode-noerr", err == nil)
+	b := newAVBuilder(nameMap)
+	o := b.ord()
+	la := b.list("[]int32", len(v.A))
+	for _, e := range v.A {
+		la.Items = append(la.Items, avInt(e))
+	}
+	lb := b.list("[]int32", len(v.B))
+	for _, e := range v.B {
+		lb.Items = append(lb.Items, avInt(e))
+	}
+	lc := b.list("[]int32", 0)
+	exp := b.obj("ZShare", []string{"a", "b", "c", "m", "n", "z"}, la, lb, lc, &AV{Kind: 'M', Ord: -1}, &AV{Kind: 'M', Ord: -1}, avInt(1))
 	exp.Ord = o
 	checkWellFormed(bs, exp)
 }
